@@ -406,7 +406,7 @@ def hyps_refutable(ob, str_axioms, budget_ms=10000, deep=False):
         return True
     if r[0] == "sat" or not deep:
         return False
-    lite, _c = build_inst(probe, str_axioms, lite=True)
+    lite, _c = build_inst(probe, str_axioms, lite=False)     # with the rounding / grid axiom instances
     if len(lite) < 25000000:
         rl = _solve_z3(lite, budget_ms)
         if rl[0] == "unsat":
